@@ -59,13 +59,16 @@ def run(tier):
         if tier == "quick" and len(classes) > 3:
             classes = rnd.sample(classes, 3)
         for cn in classes:
-            S = D.Session(cn, ncell=3, profile=sc["prof"], t0=sc["t0"] / D.UNIT)
+            # the unit of time is free: every third replay runs the same scenario in units of 2^-40 (steps of 2e-13 instead
+            # of 1/4): nothing in the driver may know an absolute size of times
+            ts_unit = 2.0 ** -40 if (len(recs) % 3 == 1) else 1.0
+            S = D.Session(cn, ncell=3, profile=sc["prof"], t0=sc["t0"] / D.UNIT * ts_unit, tscale=ts_unit)
             stop = {}
             if sc["tot"] != -1:
-                stop["tottime"] = sc["tot"] / D.UNIT
+                stop["tottime"] = sc["tot"] / D.UNIT * ts_unit
             if sc["maxit"] != -1:
                 stop["maxit"] = sc["maxit"]
-            ts_ = [t / D.UNIT for t in sc["tsave"]]
+            ts_ = [t / D.UNIT * ts_unit for t in sc["tsave"]]
             # the save times come as a list, a tuple or a numpy array, in turn
             ts_ = [ts_, tuple(ts_), np.array(ts_, dtype=float)][rid % 3]
             raw, _ = S.call("solve", S.f0, 1.0, ts_, stop or None)
@@ -73,7 +76,7 @@ def run(tier):
             rid += 1
             recs.append({"id": rid, "kind": "call", "call": call})
             meta[rid] = (sc, cn, raw)
-            tr = D.trace_of([raw], ["f0"], sc["kind"], sc["prof"], S.f0.time, rid)
+            tr = D.trace_of([raw], ["f0"], sc["kind"], sc["prof"], S.f0.time, rid, tscale=ts_unit)
             if tr is not None:
                 traces.append(tr)
             rep.evaluations += 1
@@ -83,7 +86,7 @@ def run(tier):
             # drift: the code's outcome vs the implementation-shaped specification (exact-time integrators only)
             if cn in ("explicit", "forwardeuler", "rk2", "rk2_heun", "implicit", "backwardeuler", "trapezoidal",
                       "cranknicolson", "gear", "lsrk25bb", "lsrk26bb", "lsrk4"):
-                got = (raw["nit"], round(raw["tfin"] * D.UNIT, 9), [round(t * D.UNIT, 9) for (t, _, _) in raw["res"]],
+                got = (raw["nit"], round(raw["tfin"] / ts_unit * D.UNIT, 9), [round(t / ts_unit * D.UNIT, 9) for (t, _, _) in raw["res"]],
                        [i for (_, i, _) in raw["res"]])
                 exp = (sc["nit"], float(sc["tfin"]), [float(t) for t in sc["rest"]], list(sc["resit"]))
                 if got != exp:
